@@ -355,6 +355,16 @@ func classes(c Case) []string {
 	if c.Procs > 0 {
 		set["stream-processors"] = true
 	}
+	for _, f := range c.Client {
+		if f.T == "T" && f.Table > 4096 {
+			set["encoder-table-above-4096"] = true
+		}
+	}
+	for _, f := range c.Server {
+		if f.T == "T" && f.Table > 4096 {
+			set["encoder-table-above-4096"] = true
+		}
+	}
 	var out []string
 	for k := range set {
 		out = append(out, k)
@@ -510,8 +520,11 @@ func settingsDiff(want, got [][]h2kit.Setting) string {
 
 // ---------------------------------------------------------------- execution
 
-func initialSettings(w Win, max uint32) []h2kit.Setting {
+func initialSettings(w Win, max, table uint32) []h2kit.Setting {
 	var s []h2kit.Setting
+	if table != 0 {
+		s = append(s, h2kit.Setting{ID: 1, Val: table})
+	}
 	if w.Init != 65535 {
 		s = append(s, h2kit.Setting{ID: 4, Val: uint32(w.Init)})
 	}
@@ -727,6 +740,15 @@ const (
 	sigPushCont = "C08/push-promise/continued-block/relay-direction-aborted"
 )
 
+func growsTable(frames []Frame) bool {
+	for _, f := range frames {
+		if f.T == "T" && f.Table > 4096 {
+			return true
+		}
+	}
+	return false
+}
+
 func hasContinuedPush(frames []Frame) bool {
 	for _, f := range frames {
 		if f.T == "PP" && len(f.Cuts) > 0 {
@@ -763,7 +785,7 @@ func runOnce(c Case, bound time.Duration, vr variant) (v kit.Verdict, slow bool)
 	sv.SetAutoAck(false)
 	cl.SetAutoWU(c.CWin.Mode == "immediate")
 	sv.SetAutoWU(c.SWin.Mode == "immediate")
-	cInit, sInit := initialSettings(c.CWin, c.CMax), initialSettings(c.SWin, c.SMax)
+	cInit, sInit := initialSettings(c.CWin, c.CMax, c.CTable), initialSettings(c.SWin, c.SMax, c.STable)
 	cl.WritePreface()
 	cl.WriteSettings(cInit...)
 	sv.WriteSettings(sInit...)
@@ -790,6 +812,14 @@ func runOnce(c Case, bound time.Duration, vr variant) (v kit.Verdict, slow bool)
 		return kit.Failf("C08/settings/setup/initial-settings-not-forwarded", "initial SETTINGS not delivered within %v (client got=%v server got=%v)", bound, okc, oks), true
 	}
 	r.calib = h2kit.RelayLoops() == base+2
+	// a side whose peer announced nothing restrictive processes the peer's initial
+	// SETTINGS now (and may then use a larger HPACK table if one was allowed)
+	if earlyAck(c.SWin) {
+		cl.AckSettings()
+	}
+	if earlyAck(c.CWin) {
+		sv.AckSettings()
+	}
 
 	wantAtServer := expected(cInit, c.Client)
 	wantAtClient := expected(sInit, server)
@@ -823,6 +853,8 @@ func runOnce(c Case, bound time.Duration, vr variant) (v kit.Verdict, slow bool)
 			// a relay that ends the whole session when one direction fails takes the
 			// other direction down with it: that is a consequence, not a second failure
 			out.Addf(sigPushCont, "server sent PUSH_PROMISE without END_HEADERS followed by CONTINUATION; the server-to-client direction of the relay ended and nothing further was forwarded%s", r.diag())
+		case (c2s && growsTable(c.Client)) || (s2c && growsTable(server)):
+			out.Addf("C08/session/encoder-table-above-4096/relay-session-aborted", "a script raises its encoder's dynamic table above 4096 (allowed by the peer's SETTINGS_HEADER_TABLE_SIZE) and the relay ended the session mid-script%s", r.diag())
 		case s2c && c2s:
 			out.Addf("C08/session/both-directions/relay-session-aborted", "the relay ended the session mid-script%s", r.diag())
 		case s2c:
@@ -925,7 +957,7 @@ var propScripts = &kit.Prop[Case]{
 	ID: "C08", Name: "frame-scripts",
 	Rule: "frame scripts over 1..K client-initiated streams plus pushed streams in both directions (HEADERS/trailers with drawn CONTINUATION cuts, priority, padding; padded DATA; RST_STREAM, PRIORITY, PUSH_PROMISE; SETTINGS, PING, GOAWAY; encoder table-size changes), a drawn interleaving, client transport segmentation, a receiver window behaviour per side and a stream-processor configuration; each side's normalised per-stream history and connection frames must equal what the other side sent; non-trivial = any CONTINUATION, padding, interleaved streams, DATA that can exceed the receiver's stream window, or segmentation below 24 bytes",
 	Gen:  genCase, Run: run, NonTrivial: nontrivial, Classes: classes,
-	Gates: map[string]float64{"continuation": 0.15, "padding": 0.15, "interleaved-streams": 0.15, "window-blocked": 0.15, "segmentation<24": 0.15},
+	Gates: map[string]float64{"continuation": 0.15, "padding": 0.15, "interleaved-streams": 0.15, "window-blocked": 0.15, "segmentation<24": 0.15, "encoder-table-above-4096": 0.08},
 }
 
 func TestScripts(t *testing.T) {
@@ -936,4 +968,4 @@ func TestScripts(t *testing.T) {
 	propScripts.Check(t, n)
 }
 
-func TestReplay(t *testing.T) { kit.Replay(t, propScripts) }
+func TestReplay(t *testing.T) { kit.Replay(t, propScripts, propLargeBlocks) }
